@@ -813,3 +813,64 @@ def list_prefilter_guard(repo, run, rule):
         run.violation(rule, fi, 'pre-filter guard', '; '.join(sorted(set(bad))))
     else:
         run.ok(rule, fi, 'the pre-filter runs iff the newer node is a container (%d paths)' % n)
+
+
+def eval_context_init(repo, run, rule):
+    """EvalContext.__init__ evaluated: the symbols of a context are a copy of the defaults updated with what the caller passes
+    (caller wins, the class-level defaults stay untouched); caches, stack and strict flag start empty / off"""
+    fi = repo.func('EvalContext.__init__')
+    bad = []
+    for given in (None, {}, {'a': 1, 'new': 2}):
+        defaults = {'d': 0, 'a': 9}
+        ev = _fde(repo)
+        ev.class_objs[('EvalContext', '_default_eval_symbols')] = defaults
+        cp = lambda x: dict(x)      # noqa: E731
+        cp._fde_ok = True
+        ev.extcalls['copy.copy'] = cp
+        ev.extcalls['copy.deepcopy'] = cp
+        me = Obj('ctx', 'EvalContext')
+        try:
+            r = ev.call(fi, me, given) if given is not None else ev.call(fi, me)
+        except Unsupported as e:
+            raise AnalysisError('EvalContext.__init__: finite-domain evaluator refused: %s' % e)
+        want = dict({'d': 0, 'a': 9}, **(given or {}))
+        got = me.f.get('_eval_symbols')
+        if r.raised:
+            bad.append('raises %s' % r.raised)
+        elif got != want:
+            bad.append('symbols passed %r: the context has %r, expected %r' % (given, got, want))
+        elif got is defaults or defaults != {'d': 0, 'a': 9}:
+            bad.append('the class-level default symbols are %s by a new context' % ('shared' if got is defaults else 'changed'))
+        for k, v in (('_eval_cache', {}), ('_eval_cache_id', {}), ('_eval_cache_unsafe', {}), ('_eval_stack', []), ('_require_all_safe', False)):
+            if not r.raised and me.f.get(k, '<unset>') != v:
+                bad.append('%s starts as %r' % (k, me.f.get(k, '<unset>')))
+    if bad:
+        run.violation(rule, fi, 'EvalContext.__init__', '; '.join(sorted(set(bad))[:3]))
+    else:
+        run.ok(rule, fi, 'EvalContext(eval_symbols): defaults copied, caller\'s symbols on top; caches empty, strict mode off')
+
+
+def unchecked_path_prefixes(repo, run, rule):
+    """keys of any type (floats, bools ... - whatever YAML produced) are legal path components while walking / evaluating a tree:
+    the prefix normalisation of the walkers and of evaluate_node does not type-check its components"""
+    n = 0
+    bad = []
+    for q in ('EvalContext.evaluate_node', 'ComposedNode.ayns.filter_nodes', 'ComposedNode.ayns.map_nodes', 'ComposedNode.ayns.nodes_with_paths'):
+        fi = repo.func(q)
+        calls = {}
+        for p in tr.paths_of(repo, fi, no_inline={'get_list_path'}, follow_exceptions=False):
+            for e in p.events:
+                if e.kind == 'call' and e.attr == 'get_list_path' and e.args and e.args[0].text in fi.params():
+                    calls.setdefault(id(e.node), e)
+        for e in calls.values():
+            n += 1
+            ct = e.kw.get('check_types')
+            if ct is None or ct.const is not False:
+                bad.append((fi, e))
+    if n < 3:
+        raise AnalysisError('path prefix normalisation: only %d get_list_path(<prefix>) calls found in the walkers' % n)
+    if bad:
+        fi, e = bad[0]
+        run.violation(rule, tr.where(fi, e), norm(e.node)[:80], 'the path prefix is type-checked (%d site(s)): a tree with a float / bool key cannot be walked or evaluated although the loader accepts such keys' % len(bad))
+    else:
+        run.ok(rule, repo.func('EvalContext.evaluate_node'), '%d prefix normalisations use check_types=False' % n)
